@@ -38,6 +38,13 @@ def inputs(tier):
         d = corpus.cutout_desc('1HPX', 'A', 24, 12.0)
         d['ter_before'] = tb
         out.append(dict(src='corpus', d=d))
+    # options that are not 'display alternative states' must leave the analysis read-only as well
+    coupled_inputs = [dict(src='corpus', d=corpus.cutout_desc('1HPX', 'A', 24, 12.0)), dict(src='corpus', d=corpus.pair_desc('GLU', 'GLU', 2.8, 'deep')),
+                      dict(src='corpus', d=corpus.pair_desc('ASP', 'ASP', 2.8, 'mid')), dict(src='corpus', d=corpus.cluster_desc(('GLU', 'GLU', 'HIS'), 'star', 3.0, 'mid')),
+                      dict(src='corpus', d=corpus.cluster_desc(('ASP', 'GLU', 'GLU'), 'line', 3.0, 'deep'))]
+    for ci in coupled_inputs:
+        for o in OPTION_SETS[1:]:
+            out.append(dict(ci, opts=list(o)))
     if tier == 'thorough':
         out += [dict(src='corpus', d=corpus.file_desc(k)) for k in ('3SGB', '1HPX')]
     return out
@@ -68,18 +75,24 @@ def plan(tier, seed):
                 bounds=dict(inputs=len(ins)), samples=[ins[0], ins[-1]])
 
 
+OPTION_SETS = ((), ('--log-level', 'DEBUG'), ('-q',), ('--protonate-all',), ('-o', '4.0'), ('-r', 'low-pH'))
+
+
 def run_case(case, ctx, acc):
     s = build(case, ctx.seed)
     text = gen.to_text(s)
+    opts = tuple(case.get('opts', ()))
     try:
         pk.seam_coupling_analysis(True)
-        m_on = pk.run(text)
+        m_on = pk.run(text, opts)
         r_on = pk.record(m_on)
         pk.seam_coupling_analysis(False)
         m_off = pk.run(text)
         r_off = pk.record(m_off)
     finally:
         pk.seam_coupling_analysis(True)
+        import logging
+        logging.getLogger('propka.lib').setLevel(logging.NOTSET)
     coupled = sum(1 for c in r_on['conformations'] for g in r_on['confs'][c]['groups'] if g['coupled'])
     acc.case(nontrivial_key=jhash(case) if coupled else None, outcome='coupled=%d' % min(coupled, 6))
     v = []
